@@ -517,10 +517,16 @@ func runCKKSSharesBody(c CKKSCase, rec *h.Rec) error {
 		ringE.Reduce(mq, mq)
 		return centered(ringE, mq)
 	}
-	var residuals []*big.Int
+	var pools, pools2 smudgePools // decryption shares, re-encryption shares
+	cls := func(i int) int {
+		if i == 0 || !c.Shallow {
+			return 0
+		}
+		return 1
+	}
 	half := new(big.Int).Lsh(big.NewInt(1), x.logBound-1)
 	negHalf := new(big.Int).Neg(half)
-	check := func(i int, pub multiparty.KeySwitchShare, sec multiparty.AdditiveShareBigint) error {
+	check := func(k, i int, pub multiparty.KeySwitchShare, sec multiparty.AdditiveShareBigint) error {
 		if pub.Level() != c.LevelE {
 			return h.Failf("C16:mpckks:EncToShare:GenShare:share-level", "public share level %d, allocated at %d", pub.Level(), c.LevelE)
 		}
@@ -533,7 +539,7 @@ func runCKKSSharesBody(c CKKSCase, rec *h.Rec) error {
 		if infNorm(r).Cmp(bigF(x.bParty)) > 0 {
 			return h.Failf("C16:mpckks:EncToShare:GenShare:noise-above-bound", "decryption-share noise 2^%.1f exceeds the hard bound %g (sigma=%g)", log2Big(infNorm(r)), x.bParty, c.Sigma)
 		}
-		residuals = append(residuals, r...)
+		pools.add(k, r)
 		return nil
 	}
 
@@ -549,7 +555,7 @@ func runCKKSSharesBody(c CKKSCase, rec *h.Rec) error {
 		if err := p.GenShare(x.in.shares[i], x.logBound, ct, &sec[i], &pub[i]); err != nil {
 			return h.Failf("C16:mpckks:EncToShare:GenShare:error", "%v (level %d, minimum level respected)", err, c.LevelE)
 		}
-		if err := check(i, pub[i], sec[i]); err != nil {
+		if err := check(cls(i), i, pub[i], sec[i]); err != nil {
 			return err
 		}
 	}
@@ -602,20 +608,28 @@ func runCKKSSharesBody(c CKKSCase, rec *h.Rec) error {
 			len(shares), log2Big(worst), math.Log2(boundE), log2Big(x.scale), x.logBound, n, c.LevelE, c.Sigma)
 	}
 
-	for len(residuals) < minSmudgeSamples {
-		p := e2s0.AllocateShare(c.LevelE)
+	// smudging lower bound, separately for the constructor-built instance and for ShallowCopy instances
+	e2sC := e2s0.ShallowCopy()
+	e2sCC := e2sC.ShallowCopy()
+	for k := 0; pools.short(0) || pools.short(1); k++ {
+		px, kc := e2s0, 0
+		if !pools.short(0) {
+			px, kc = e2sC, 1
+			if k%2 == 1 {
+				px = e2sCC
+			}
+		}
+		p := px.AllocateShare(c.LevelE)
 		s := mpckks.NewAdditiveShare(params, c.LogSlots)
-		if err := e2s0.GenShare(x.in.shares[0], x.logBound, ct, &s, &p); err != nil {
+		if err := px.GenShare(x.in.shares[0], x.logBound, ct, &s, &p); err != nil {
 			return h.Failf("C16:mpckks:EncToShare:GenShare:error", "%v", err)
 		}
-		if err := check(0, p, s); err != nil {
+		if err := check(kc, 0, p, s); err != nil {
 			return err
 		}
 	}
-	_, std := stdOf(residuals)
-	rec.Note("std/sigma", std/c.Sigma)
-	if len(residuals) > 0 && std < 0.8*c.Sigma {
-		return h.Failf("C16:mpckks:EncToShare:GenShare:smudging-too-small", "pooled std of the decryption-share noise %.3f < 0.8 * requested sigma %g over %d samples", std, c.Sigma, len(residuals))
+	if err := pools.check(c.Sigma, 1, "C16:mpckks:EncToShare:GenShare:smudging-too-small", rec); err != nil {
+		return err
 	}
 
 	// ---- shares -> encryption ---------------------------------------------------------------------------------------
@@ -625,6 +639,22 @@ func runCKKSSharesBody(c CKKSCase, rec *h.Rec) error {
 		}
 	}
 	crp := s2e0.SampleCRP(c.LevelO, x.crs)
+	// e_i = c0Share_i - NTT(embed(share_i)) + crp * s_i
+	residual2 := func(i int, sh multiparty.KeySwitchShare, sec multiparty.AdditiveShareBigint) []*big.Int {
+		mq := x.embedNTT(ringO, sec.Value)
+		ringO.Sub(sh.Value, mq, mq)
+		ringO.MulCoeffsMontgomeryThenAdd(crp.Value, x.in.shares[i].Value.Q, mq)
+		ringO.INTT(mq, mq)
+		ringO.Reduce(mq, mq)
+		return centered(ringO, mq)
+	}
+	collect2 := func(k int, r []*big.Int) error {
+		if infNorm(r).Cmp(bigF(x.bParty)) > 0 {
+			return h.Failf("C16:mpckks:ShareToEnc:GenShare:noise-above-bound", "re-encryption-share noise 2^%.1f exceeds the hard bound %g (sigma=%g)", log2Big(infNorm(r)), x.bParty, c.Sigma)
+		}
+		pools2.add(k, r)
+		return nil
+	}
 	c0 := make([]multiparty.KeySwitchShare, n)
 	for i := 0; i < n; i++ {
 		p := s2e(i)
@@ -632,6 +662,30 @@ func runCKKSSharesBody(c CKKSCase, rec *h.Rec) error {
 		if err := p.GenShare(x.in.shares[i], crp, ct.MetaData, sec[i], &c0[i]); err != nil {
 			return h.Failf("C16:mpckks:ShareToEnc:GenShare:error", "%v", err)
 		}
+		if err := collect2(cls(i), residual2(i, c0[i], sec[i])); err != nil {
+			return err
+		}
+	}
+	s2eC := s2e0.ShallowCopy()
+	s2eCC := s2eC.ShallowCopy()
+	for k := 0; pools2.short(0) || pools2.short(1); k++ {
+		px, kc := s2e0, 0
+		if !pools2.short(0) {
+			px, kc = s2eC, 1
+			if k%2 == 1 {
+				px = s2eCC
+			}
+		}
+		sh := px.AllocateShare(c.LevelO)
+		if err := px.GenShare(x.in.shares[0], crp, ct.MetaData, sec[0], &sh); err != nil {
+			return h.Failf("C16:mpckks:ShareToEnc:GenShare:error", "%v", err)
+		}
+		if err := collect2(kc, residual2(0, sh, sec[0])); err != nil {
+			return err
+		}
+	}
+	if err := pools2.check(c.Sigma, 1, "C16:mpckks:ShareToEnc:GenShare:smudging-too-small", rec); err != nil {
+		return err
 	}
 	ref2 := multiparty.KeySwitchShare{Value: *c0[0].Value.CopyNew()}
 	for i := 1; i < n; i++ {
